@@ -129,10 +129,12 @@ def run(ctx):
             # the trace must be accepted by the model's protocol
             full = res.get("trace_abs") or []
             # (the run whose rename was refused ends early: its trace is a prefix of the protocol, judged by the crash states)
-            for p in ([] if wi == 1 else protocol_accepts(res["trace_full"], impl.root)):
+            for p in ([] if wi == 1 else protocol_accepts([o for o in res["trace_full"] if o[0] != "readopen"], impl.root)):
                 corr.append({"what": f"write trace of create is not accepted by the model's write protocol: {p}", "replay": {"world": w, "trace": res["trace"][:40]}})
             for prob in res["unrecoverable"]:
-                sig = "zero_prior_generations" if ("refuses with 32" in prob and "[zero-prior-generation history" in prob) else None
+                # (the known finding D6b is the window between the mkdir of a first-ever history folder and its first chain
+                # file, in which the run only writes that first generation; a folder made before the media is read is not it)
+                sig = "zero_prior_generations" if ("refuses with 32" in prob and "[zero-prior-generation history" in prob and "[media files are read after" not in prob) else None
                 fails.append({"what": prob, "replay": {"world": w, "trace": res["trace"][:60]}, "signature": sig})
             for prob in res.get("replay_errors", [])[:3]:
                 corr.append({"what": f"write trace of create: {prob}", "replay": {"world": w, "trace": res["trace"][:40]}})
